@@ -141,6 +141,17 @@ impl RateLoader {
             debug!("RateLoader::get_exact_usd_cad_rate {} not yet loaded", year);
             let rates = self.fetch_usd_cad_rates_for_date_year(&trade_date).await?;
             self.year_rates.insert(year, rates);
+        } else if !self.fresh_loaded_years.contains(&year)
+            && !self.year_rates.get(&year).unwrap().contains_key(&trade_date)
+        {
+            // The rates we hold for this year came from the cache (they were not
+            // downloaded during this run), and the cache is only valid for the
+            // dates it contains. It was validated against the first date we looked
+            // up, but it does not cover this one, so it may simply be older than
+            // trade_date. Fetch again (this downloads, since the cache does not
+            // contain the date, and marks the year as fresh).
+            let rates = self.fetch_usd_cad_rates_for_date_year(&trade_date).await?;
+            self.year_rates.insert(year, rates);
         }
         let year_rates = self.year_rates.get(&year).unwrap();
         if let Some(rate) = year_rates.get(&trade_date) {
